@@ -333,3 +333,12 @@ def probe_k13_unrounded_default():
         return (x, p)
     g = klepto.lru_cache(maxsize=5, tol=1)(f)
     return g.key(1) != g.key(1, p=2.26)
+
+
+def probe_k14_shared_cache():
+    """K14 (C01): a decorator object keeps ONE cache; two functions decorated by it share entries"""
+    import klepto
+    memo = klepto.lru_cache(maxsize=5)
+    f1 = memo(lambda x: x + 1)
+    f2 = memo(lambda x: x * 10)
+    return f1(1) == 2 and f2(1) == 2
